@@ -1,6 +1,7 @@
 package main
 
 import (
+	"encoding/json"
 	"flag"
 	"fmt"
 	"os"
@@ -56,8 +57,10 @@ func main() {
 	emit := flag.Bool("emit-golden", false, "write golden/golden.json from the current tree (done once, by hand)")
 	replay := flag.String("replay", "", "re-run the rule instance recorded in this violation file")
 	evdir := flag.String("evidence", "", "directory for evidence files (default <verif>/evidence)")
+	canary := flag.String("canary", "", "thorough tier: JSON results of the canary mutants (written by selftest.py --canary)")
 	flag.Parse()
 	evidenceDir = *evdir
+	canaryFile = *canary
 	goldenDir = filepath.Join(*verif, "golden")
 
 	if *replay != "" {
@@ -107,7 +110,7 @@ func main() {
 	os.Exit(runProperty(a, *verif, *prop, *tier))
 }
 
-var evidenceDir string
+var evidenceDir, canaryFile string
 
 func runProperty(a *Analysis, verif, prop, tier string) int {
 	pi, ok := props[prop]
@@ -133,6 +136,10 @@ func runProperty(a *Analysis, verif, prop, tier string) int {
 			}
 		}()
 		pi.fn(a, rep, tier)
+		if tier == "thorough" {
+			thoroughExtras(a, rep, prop, pi)
+			canaryResults(rep)
+		}
 	}()
 	cmd := fmt.Sprintf("fpcheck -repo %s -property %s -tier %s", a.P.RepoDir, prop, tier)
 	return rep.Finish(verif, kf, cmd)
@@ -213,4 +220,91 @@ func debugLayouts(a *Analysis) {
 			fmt.Printf("  DEC [%s]\n      %s\n", pl.Conds, pl.Layout.Canon())
 		}
 	}
+}
+
+// thoroughExtras: the second extractor and the additional build configurations (DESIGN §8).
+func thoroughExtras(a *Analysis, rep *Report, prop string, pi propInfo) {
+	if prop == "C01" || prop == "C02" || prop == "C07" || prop == "C08" {
+		a.CrossCheckAST(rep)
+	}
+	base := map[string]bool{}
+	for _, v := range rep.Violations {
+		base[v.Key] = true
+	}
+	configs := []LoadOptions{
+		{Dir: a.P.RepoDir, Tags: "verif"},
+		{Dir: a.P.RepoDir, Tests: true},
+		{Dir: a.P.RepoDir, Arch: "386"},
+	}
+	for _, opt := range configs {
+		name := fmt.Sprintf("tags=%q tests=%v arch=%s", opt.Tags, opt.Tests, archOr(opt.Arch))
+		p2, err := Load(opt)
+		if err != nil {
+			rep.Notes = append(rep.Notes, "configuration "+name+": cannot be loaded: "+err.Error())
+			if opt.Arch == "" {
+				rep.Ob("CFG-loads", name, false, "-", "build configuration cannot be loaded: "+err.Error())
+			}
+			continue
+		}
+		u2, err := Discover(p2)
+		if err != nil {
+			rep.Ob("CFG-loads", name, false, "-", "universe discovery failed: "+err.Error())
+			continue
+		}
+		r2 := NewReport(prop, pi.level, "quick", 0)
+		func() {
+			defer func() {
+				if r := recover(); r != nil {
+					r2.Fatal = append(r2.Fatal, fmt.Sprint("analyser panic: ", r))
+				}
+			}()
+			pi.fn(NewAnalysis(p2, u2), r2, "quick")
+		}()
+		extra := 0
+		for _, v := range r2.Violations {
+			if base[v.Key] {
+				continue
+			}
+			extra++
+			if opt.Arch != "" {
+				rep.Notes = append(rep.Notes, fmt.Sprintf("configuration %s only: %s at %s: %s", name, v.Key, v.Pos, v.Msg))
+				continue
+			}
+			rep.Violate("CFG["+name+"]:"+v.Rule, strings.TrimPrefix(v.Key, v.Rule+":"), v.Pos, "under build configuration "+name+": "+v.Msg, nil)
+		}
+		rep.Ob("CFG-same-verdict", name, extra == 0 || opt.Arch != "", "-", fmt.Sprintf("%d violations appear only under configuration %s", extra, name))
+		rep.Notes = append(rep.Notes, fmt.Sprintf("configuration %s: obligations=%d discharged=%d violations=%d (default: %d/%d)", name, r2.Obligations, r2.Discharged, len(r2.Violations), rep.Discharged, rep.Obligations))
+	}
+}
+
+// canaryResults folds the canary run into the report: a rule that does not fire on its canary makes the check itself broken.
+func canaryResults(rep *Report) {
+	if canaryFile == "" {
+		return
+	}
+	b, err := os.ReadFile(canaryFile)
+	if err != nil {
+		rep.Notes = append(rep.Notes, "canaries: "+err.Error())
+		return
+	}
+	var rs []struct{ ID, Status, Detail string }
+	if err := json.Unmarshal(b, &rs); err != nil {
+		rep.Notes = append(rep.Notes, "canaries: "+err.Error())
+		return
+	}
+	ran, skipped := 0, 0
+	for _, r := range rs {
+		switch r.Status {
+		case "CAUGHT", "UNNAMED":
+			ran++
+			rep.Ob("CANARY-fires", r.ID, true, "", "")
+		case "BROKEN-CASE":
+			skipped++ // the tree differs from the one the canary was written for
+		default:
+			ran++
+			rep.Fatal = append(rep.Fatal, fmt.Sprintf("canary %s (%s): the check did not report a mutant that breaks the property: %s", r.ID, r.Status, r.Detail))
+		}
+	}
+	rep.Counts["canaries_fired"] = ran
+	rep.Counts["canaries_skipped"] = skipped
 }
